@@ -63,7 +63,7 @@ def write_history(history, header=b"%PDF-1.7\n%\xe2\xe3\xcf\xd3\n", tail=b"\n", 
                 continue
             offs[n] = len(out)
             out += W.obj_bytes(n, gens.get(n, 0), defs[n], eol=b"\n", stream_eol=rev.get("stream_eol", b"\n"),
-                               end_eol=rev.get("stream_end_eol", b"\n"))
+                               end_eol=rev.get("stream_end_eol", b"\n"), head_sep=rev.get("head_sep"))
         if packable:
             k = max(1, min(rev.get("nstm", 1), len(packable)))
             groups = [packable[i::k] for i in range(k)]
